@@ -285,6 +285,10 @@ def store(
 
     arrays = []
     for s, t, r in zip(sources, targets, regions_list):
+        # The per-block target slices below are literals frozen to the source's
+        # advertised chunk layout; pin that layout so a later rewrite of the
+        # source onto different chunks cannot desynchronize them.
+        s = s.freeze_chunks()
         slices = ArraySliceDep(s.chunks)
         arrays.append(
             map_blocks(
